@@ -4,6 +4,7 @@ EXTENDS AppContainer, VerifEmit
 ASSUME EmitReset
 Behaviour == [comps |-> comps, fail |-> fail, chain |-> [k \in 1..Len(chain) |-> chain[k]],
               late |-> late, log |-> log, startErr |-> startErr, closeErrs |-> closeErrs,
-              resolve |-> [nm \in Names |-> Resolve(nm)]]
+              resolve |-> [nm \in Names |-> Resolve(nm)],
+              resolveEarly |-> [nm \in Names |-> ResolveEarly(nm)]]
 Emit == EmitWhen(pc = "done", Behaviour)
 =============================================================================
